@@ -60,10 +60,39 @@ def code(t: int, e: int) -> int:
     return STRIDE * t + e + 1
 
 
+# ----------------------------------------------------------------------------- episode-end keys
+# A transition may carry several of the keys the n-step buffer recognises as episode end
+# (`done`, `termination`, `terminated`; first present one in that order is used) plus `truncated`.
+# A cell of the stream is [reward, done] or [reward, done, truncation_only]; with
+# case["keys"] = list of keys present in every transition:  done = terminated | truncated,
+# termination = terminated = done & ~truncation_only,  truncated = done & truncation_only.
+END_PRIORITY = ("done", "termination", "terminated")
+
+
+def end_key(case) -> str:
+    keys = case.get("keys") or ["done"]
+    return next(k for k in END_PRIORITY if k in keys)
+
+
+def cell_flags(case, cell) -> dict:
+    d = bool(cell[1])
+    tr = d and len(cell) > 2 and bool(cell[2])
+    return {"done": d, "termination": d and not tr, "terminated": d and not tr, "truncated": tr}
+
+
+def eff_steps(case):
+    """the stream as [reward, episode end] with the episode end the buffer has to follow"""
+    k = end_key(case)
+    if k == "done":
+        return [[[c[0], int(bool(c[1]))] for c in row] for row in case["steps"]]
+    return [[[c[0], int(cell_flags(case, c)[k])] for c in row] for row in case["steps"]]
+
+
 # ----------------------------------------------------------------------------- the real code
-def make_transition(t: int, row, unvec: bool):
+def make_transition(t: int, row, unvec: bool, case=None):
     """row = [[reward, done], ...] per environment — built the way train_off_policy builds it"""
     from agilerl.components.data import Transition
+    row_full, row = row, [c[:2] for c in row]
     m = len(row)
     obs = np.array([[code(t, e)] * 2 for e in range(m)], dtype=np.float32)
     nxt = obs + NXT
@@ -78,23 +107,32 @@ def make_transition(t: int, row, unvec: bool):
         tr = Transition(obs=obs, action=act, reward=rew, next_obs=nxt, done=done)
     td = tr.to_tensordict()
     td.batch_size = [m]
+    keys = (case or {}).get("keys")
+    if keys:                                   # further episode-end keys, same shape / dtype as `done`
+        shape, dtype = td["done"].shape, td["done"].dtype
+        flags = [cell_flags(case, c) for c in row_full]
+        for k in keys:
+            if k != "done":
+                td[k] = torch.tensor([float(f[k]) for f in flags], dtype=dtype).reshape(shape)
+        if "done" not in keys:
+            del td["done"]
     return td
 
 
-def decode_cell(row) -> str:
+def decode_cell(row, dkey: str = "done") -> str:
     """one stored record -> 'obs,act,rew,nxt,done' (the model's wire format) or MIXED"""
     def uniq(x):
         v = torch.unique(x.reshape(-1).to(torch.float64)).tolist()
         return v[0] if len(v) == 1 else None
-    o, a, r, x, d = (uniq(row[k]) for k in ("obs", "action", "reward", "next_obs", "done"))
+    o, a, r, x, d = (uniq(row[k]) for k in ("obs", "action", "reward", "next_obs", dkey))
     if None in (o, a, r, x, d) or o != int(o) or a != int(a) or x != int(x) or d not in (0.0, 1.0):
         return "MIXED"
     return f"{int(o)},{int(a)},{frac(r)},{int(x)},{int(d)}"
 
 
-def decode_storage(buf) -> list[str]:
+def decode_storage(buf, dkey: str = "done") -> list[str]:
     n = len(buf)
-    return [decode_cell(buf.storage[j]) for j in range(n)]
+    return [decode_cell(buf.storage[j], dkey) for j in range(n)]
 
 
 def pairs_line(ncells: list[str], ocells: list[str]) -> str:
@@ -118,23 +156,24 @@ def run_impl(case, case_seed: int):
     n, m, cap = case["n"], case["m"], case["cap"]
     g = Fraction(*case["gamma"])
     steps = case["steps"]
+    dkey = end_key(case)
     unvec = bool(case.get("unvec")) and m == 1
     nb = MultiStepReplayBuffer(max_size=cap, n_step=n, gamma=float(g))
     mb = PrioritizedReplayBuffer(max_size=cap, alpha=0.6) if case.get("mem") == "per" else ReplayBuffer(max_size=cap)
     lines, problems = ["ok"], []
     dumps = set(case.get("dumps", []))
     for t, row in enumerate(steps):
-        one = nb.add(make_transition(t, row, unvec))
+        one = nb.add(make_transition(t, row, unvec, case))
         if one is not None:
             mb.add(one)
-        ncells, ocells = decode_storage(nb), decode_storage(mb)
+        ncells, ocells = decode_storage(nb, dkey), decode_storage(mb, dkey)
         if one is None:
             lines.append("-")
         else:
             # the record just stored for each environment = the one whose obs is (t-n+1, e)
             by_obs = {c.split(",")[0]: c for c in ncells}
             fused = [by_obs.get(str(code(t - n + 1, e)), "MISSING") for e in range(m)]
-            ret = [decode_cell(one[e]) for e in range(m)]
+            ret = [decode_cell(one[e], dkey) for e in range(m)]
             lines.append(" ".join(fused) + " | " + " ".join(ret))
         # the property is evaluated after every call (a bad record may be overwritten later)
         for msg in oracle(case, t + 1, ncells, ocells):
@@ -149,10 +188,10 @@ def run_impl(case, case_seed: int):
         sampler, n_sampler = Sampler(memory=mb), Sampler(memory=nb)
         exp = sampler.sample(k, 0.4) if case.get("mem") == "per" else sampler.sample(k, return_idx=True)
         nexp = n_sampler.sample(exp["idxs"])
-        fields = ("obs", "action", "reward", "next_obs", "done")
+        fields = ("obs", "action", "reward", "next_obs", dkey)
         for j in range(k):
-            a = decode_cell({f: exp[f].reshape(k, -1)[j] for f in fields})
-            b = decode_cell({f: nexp[f].reshape(k, -1)[j] for f in fields})
+            a = decode_cell({f: exp[f].reshape(k, -1)[j] for f in fields}, dkey)
+            b = decode_cell({f: nexp[f].reshape(k, -1)[j] for f in fields}, dkey)
             if a == "MIXED" or b == "MIXED" or a.split(",")[:2] != b.split(",")[:2]:
                 problems.append(f"sampling both buffers with the same indices gave 1-step {a} but n-step {b}")
     return lines, problems
@@ -163,7 +202,7 @@ def oracle(case, seen: int, ncells: list[str], ocells: list[str]) -> list[str]:
     """the statement of C10 on the decoded storages after `seen` steps of the stream"""
     n, m, cap = case["n"], case["m"], case["cap"]
     g = Fraction(*case["gamma"])
-    steps = case["steps"][:seen]
+    steps = eff_steps(case)[:seen]
     R = lambda t, e: Fraction(*steps[t][e][0])
     D = lambda t, e: int(bool(steps[t][e][1]))
     out = []
@@ -226,7 +265,7 @@ def model_lines(case) -> list[str]:
     g = Fraction(*case["gamma"])
     out = [f"nstep new {n} {frac_str(g)} {m} {cap} {cap} 1"]
     dumps = set(case.get("dumps", []))
-    for t, row in enumerate(case["steps"]):
+    for t, row in enumerate(eff_steps(case)):
         cells = []
         for e, (r, d) in enumerate(row):
             c = code(t, e)
@@ -382,9 +421,31 @@ def gen_case(rng: random.Random, tier: str):
     return case
 
 
+KEY_SETS = [["done", "terminated"], ["done", "termination"], ["done", "truncated"],
+            ["done", "terminated", "truncated"], ["done", "termination", "terminated", "truncated"],
+            ["termination", "terminated"], ["termination", "truncated"], ["terminated", "truncated"],
+            ["terminated"], ["termination"]]
+
+
+def add_keys(case, krng: random.Random):
+    """in a third of the cases the transitions carry several episode-end keys with different values
+    (done = terminated | truncated; about half of the ends are truncation-only)"""
+    if krng.random() >= 0.34:
+        return case
+    case = dict(case, keys=list(krng.choice(KEY_SETS)))
+    ends = [c for row in case["steps"] for c in row if c[1]]
+    for c in ends:
+        if krng.random() < 0.5:
+            c.append(1)
+    if ends and not any(len(c) > 2 for c in ends):
+        krng.choice(ends).append(1)
+    return case
+
+
 def tags_of(case) -> tuple[list[str], bool]:
     n, m, cap, steps = case["n"], case["m"], case["cap"], case["steps"]
     T = len(steps)
+    steps = eff_steps(case)
     anyd = [any(d for _, d in row) for row in steps]
     tags = [f"n={n}", f"envs={m}", f"mode-{case.get('mode', 'corpus')}", f"mem-{case.get('mem', 'uniform')}",
             "unvectorised" if case.get("unvec") and m == 1 else "vectorised"]
@@ -406,6 +467,10 @@ def tags_of(case) -> tuple[list[str], bool]:
             tags.append("wrap-splits-a-batch")
     if K == 0:
         tags.append("window-never-full")
+    if case.get("keys"):
+        tags.append("end-keys-" + "+".join(case["keys"]))
+        if any(len(c) > 2 and c[1] and c[2] for row in case["steps"] for c in row):
+            tags.append("truncation-only-end")
     return tags, cut or K * m > cap
 
 
@@ -450,6 +515,10 @@ def shrink(chk: Check, case, case_seed: int, by_oracle: bool):
         if cap2 < small["cap"] and fails(dict(small, cap=cap2)):
             small = dict(small, cap=cap2)
             break
+    if small.get("keys"):
+        cand = {k: v for k, v in small.items() if k != "keys"}
+        if fails(cand):
+            small = cand
     for key, val in (("mem", "uniform"), ("unvec", False), ("gamma", [1, 2])):
         cand = dict(small, **{key: val})
         if cand != small and fails(cand):
@@ -462,7 +531,10 @@ def report(chk: Check, case, case_seed: int, diff, problems, impl, model) -> Non
     d2, p2, impl2, model2 = one_case(chk, small, case_seed)
     replay = {"case": small, "seed": case_seed, "impl": impl2, "model": model2,
               "oracle_problems": p2 or problems, "diff_at": d2,
-              "how": "steps[t][env] = [[reward numerator, denominator], done]; obs code = 16*t + env + 1, "
+              "how": "steps[t][env] = [[reward numerator, denominator], done(, truncation-only)]; with case.keys every "
+                     "transition carries those episode-end keys (done = terminated|truncated, termination = terminated = "
+                     "done & not truncation-only) and the buffer has to follow the first of done/termination/terminated "
+                     "that is present; obs code = 16*t + env + 1, "
                      "action = obs + 1000, next_obs = obs + 8; cells are obs,action,reward,next_obs,done",
               "correspondence": "harness/c10.py vs Model/NStep.lean (fixed = true)",
               "theorems": chk.gate["theorems"]}
@@ -1227,7 +1299,8 @@ def run(chk: Check) -> None:
         c = json.loads(f.read_text())
         cases.append((c.get("case", c), c.get("seed", 0)))
     for _ in range(n_cases):
-        cases.append((gen_case(rng, chk.tier), rng.randrange(1 << 30)))
+        case, cs = gen_case(rng, chk.tier), rng.randrange(1 << 30)
+        cases.append((add_keys(case, random.Random(cs)), cs))
     ndiff = nviol = 0
     for (case, cs), (diff, problems, impl, model) in zip(cases, many_cases(chk, cases)):
         tags, nontrivial = tags_of(case)
@@ -1255,20 +1328,23 @@ def faulty_info(variant: str):
     """a re-implementation of `_get_n_step_info` with one seeded fault"""
     def info(self):
         win = list(self.n_step_buffer)
+        present = [k for k in END_PRIORITY if k in win[0].keys()]
+        dk = present[-1] if variant == "last-matching-end-key" else present[0]
         first = win[0].clone()
         reward = first["reward"].clone()
-        if variant != "first-row-unchecked" and first["done"].bool().any():
+        if variant != "first-row-unchecked" and first[dk].bool().any():
+            self.done_key = dk
             return first
         for i, tr in enumerate(win[1:]):
             exp = i if variant == "gamma-exponent-off-by-one" else i + 1
             reward += tr["reward"] * (self.gamma ** exp)
             if variant != "stale-next-obs":
                 first["next_obs"] = tr["next_obs"].clone()
-            first["done"] = tr["done"].clone()
-            if variant != "no-break-at-done" and tr["done"].bool().any():
+            first[dk] = tr[dk].clone()
+            if variant != "no-break-at-done" and tr[dk].bool().any():
                 break
         first["reward"] = reward
-        self.done_key = "done"
+        self.done_key = dk
         return first
     return info
 
@@ -1278,6 +1354,7 @@ def selftest(chk: Check) -> None:
     from agilerl.components import replay_buffer as rb
     rng = random.Random(12345)
     suite = [(gen_case(rng, "quick"), rng.randrange(1 << 30)) for _ in range(120)]
+    suite = [(add_keys(c, random.Random(cs)), cs) for c, cs in suite]
     orig_info = rb.MultiStepReplayBuffer._get_n_step_info
     orig_add = rb.MultiStepReplayBuffer.add
 
@@ -1289,7 +1366,8 @@ def selftest(chk: Check) -> None:
         return sum(bool(p) for _, p, *_ in many_cases(chk, suite))
 
     caught = {}
-    for variant in ("gamma-exponent-off-by-one", "no-break-at-done", "first-row-unchecked", "stale-next-obs"):
+    for variant in ("gamma-exponent-off-by-one", "no-break-at-done", "first-row-unchecked", "stale-next-obs",
+                    "last-matching-end-key"):
         rb.MultiStepReplayBuffer._get_n_step_info = faulty_info(variant)
         try:
             caught[variant] = count()
